@@ -140,3 +140,25 @@ package chain
 //@   ensures [inv] cacheInv(b)
 //@   ensures [ok] result == nil
 //@   ensures [point] forall k string :: cacheView(b, k) == ite(k == old(string(key)), nil, old(cacheView(b, k)))
+//
+// Iteration: the pairs handed to yield are exactly the present keys of the view, each once.
+//@ pred memHas(db *MemDB, n string, k string) = k in db.puts[n] || (!(k in db.dels[n]) && k in db.buckets[n])
+//@ func (memBucket).Iter$1 props C17
+//@   nopanic
+//@   callbacks pure
+//@   ghostvar yielded map[string]bool
+//@   ghostvar stopped bool
+//@   requires memInv(b.db)
+//@   cbrequires yield [sound] : memHas(b.db, b.name, string(arg0)) && arg1 == memView(b.db, b.name, string(arg0))
+//@   cbrequires yield [once] : !(string(arg0) in yielded)
+//@   cbupdate yield : yielded = yielded[string(arg0) := true]
+//@   cbupdate yield : stopped = stopped || !cbresult
+//@   loop "range b.db.buckets[b.name]"
+//@     invariant !stopped
+//@     invariant forall k string :: visited(k) ==> k in b.db.buckets[b.name]
+//@     invariant forall k string :: (k in yielded) <==> (visited(k) && !(k in b.db.puts[b.name]) && !(k in b.db.dels[b.name]))
+//@   loop "range b.db.puts[b.name]"
+//@     invariant !stopped
+//@     invariant forall k string :: visited(k) ==> k in b.db.puts[b.name]
+//@     invariant forall k string :: (k in yielded) <==> (visited(k) || (k in b.db.buckets[b.name] && !(k in b.db.puts[b.name]) && !(k in b.db.dels[b.name])))
+//@   ensures [complete] !stopped ==> forall k string :: memHas(b.db, b.name, k) ==> k in yielded
